@@ -22,7 +22,7 @@ def vu(x, unit):
 
 def gen_case(rng):
     shape = rng.choice(["generic", "generic", "generic", "single", "only_hot", "only_cold", "isothermal", "zero_dt", "dup_names", "unused_utils", "vu",
-                        "root_only_tree", "zero_duty", "glide_ladder", "glide_ladder", "near_tol"])
+                        "root_only_tree", "zero_duty", "glide_ladder", "glide_ladder", "near_tol", "typed_tree"])
     labels = rng.choice([["A"], ["A", "B"], ["A/X", "A/Y", "B"], ["A/X/U", "A/X/V", "A/Y", "B"], ["/", "A"], ["A/", "/A"]])
     pr = P.gen_problem(rng, labels=labels, with_tree=(rng.random() < 0.2), util_kind=rng.choice(["none", "ladder", "outside", "mixed"]))
     ss = pr["streams"]
@@ -78,6 +78,21 @@ def gen_case(rng):
         pr["streams"], pr["utilities"] = g["streams"], g["utilities"]
         pr.pop("zone_tree", None)
         ss = pr["streams"]
+    elif shape == "typed_tree":
+        # a user tree three or four levels deep whose nodes carry the generic type names ("Zone", "Sub-Zone", blank):
+        # their kind then follows from the depth (site / process zone / unit operation), so unit operations contain
+        # unit operations; targeted with the operation-level options on
+        labs = rng.choice([["A/X/U", "A/X/V", "A/Y", "B"], ["A/X/U", "A/X/V"], ["A/X/U/P", "A/X/U/Q", "A/X/V", "B/W"]])
+        g = P.gen_problem(rng, labels=labs, with_tree=True, name_clash_p=0.0, util_kind=rng.choice(["none", "ladder"]))
+        pr["streams"], pr["utilities"], pr["zone_tree"] = g["streams"], g["utilities"], g["zone_tree"]
+        ss = pr["streams"]
+
+        def retype(n, depth):
+            if depth > 0:
+                n["type"] = rng.choice(["Zone", "Zone", "Sub-Zone", "Process Zone", ""]) if depth > 1 else rng.choice(["Zone", "Process Zone"])
+            for c in n.get("children") or []:
+                retype(c, depth + 1)
+        retype(pr["zone_tree"], 0)
     elif shape == "near_tol":
         # two stream temperatures that differ by about the tolerance (measured data, unit conversions)
         k = rng.randrange(len(ss))
@@ -105,6 +120,11 @@ def gen_case(rng):
             opts["DT_PHASE_CHANGE"] = rng.choice([0.1, 0.01, 1.0])
     else:
         opts[rng.choice(HP_OPTS)] = True
+    if shape == "typed_tree" and rng.random() < 0.7:
+        for k in rng.sample(["DO_DIRECT_OPERATION_TARGETING", "DO_INDIRECT_PROCESS_TARGETING"], k=rng.choice([1, 2])):
+            opts[k] = True
+        for k in HP_OPTS:
+            opts.pop(k, None)
     pr["options"] = opts
     return {"kind": "service", "problem": pr, "shape": shape}
 
